@@ -9,6 +9,7 @@ import (
 	"os"
 	"path/filepath"
 	"strings"
+	"sync"
 	"testing"
 	"time"
 )
@@ -311,6 +312,7 @@ func TestVerifDriver(t *testing.T) {
 		for i := 0; i < n; i++ {
 			runRandomHist(em, r, i, vHistOpts{prop: "C14", plant: i%2 == 0, manySets: true, emitExtra: c14Extra})
 		}
+		c14ConcurrentWriters(em, r)
 	default:
 		t.Fatalf("unknown property %s", prop)
 	}
@@ -352,5 +354,95 @@ func c14Extra(h *vHist, c *vCase) {
 		if len(pw) >= 6 && bytes.Contains(blob, pw) {
 			c.Violation = "a password appears in clear in the store directory: " + vHex(pw)
 		}
+	}
+}
+
+// "a fresh random salt ... never reused across writes", "any number of writes": the library is used from
+// several goroutines on one Dir (one process, several writers).  Every record written must carry a salt
+// no other write of the run used, of the schema's size, and verify for its password.
+func c14ConcurrentWriters(em *vEmitter, r *vRng) {
+	rounds, writers := 6, 16
+	if vThorough() {
+		rounds = 60
+	}
+	for _, scr := range []bool{false, true} {
+		root := vScratch("c14c")
+		var p vParam
+		if scr {
+			p = vParam{ID: 1, Scrypt: true, Key: r.bytes(32), Cost: 1, R: 1, P: 1}
+		} else {
+			p = vParam{ID: 1, Time: 1, Memory: 8, Threads: 1, Length: 32}
+		}
+		h, err := vNewHist(root, []vParam{p}, 1)
+		if err != nil {
+			panic(err)
+		}
+		if err := h.dir.Init("root", "rootpw"); err != nil {
+			panic(err)
+		}
+		seen := map[string]string{}
+		viol := ""
+		nrec := 0
+		for round := 0; round < rounds && viol == ""; round++ {
+			var wg sync.WaitGroup
+			start := make(chan struct{})
+			errs := make([]error, writers)
+			for w := 0; w < writers; w++ {
+				wg.Add(1)
+				go func(w int) {
+					defer wg.Done()
+					defer func() {
+						if e := recover(); e != nil {
+							errs[w] = fmt.Errorf("panic: %v", e)
+						}
+					}()
+					<-start
+					u := fmt.Sprintf("w%02d", w)
+					pw := fmt.Sprintf("pw-%d-%d", w, round)
+					if round == 0 {
+						errs[w] = h.dir.AddUser(u, pw, false)
+					} else {
+						errs[w] = h.dir.UpdateUser(u, pw)
+					}
+				}(w)
+			}
+			close(start)
+			wg.Wait()
+			for w := 0; w < writers && viol == ""; w++ {
+				u := fmt.Sprintf("w%02d", w)
+				if errs[w] != nil {
+					viol = fmt.Sprintf("round %d: concurrent write for %s failed: %v", round, u, errs[w])
+					break
+				}
+				b, _ := os.ReadFile(filepath.Join(h.base, u+".user"))
+				f := strings.Split(strings.SplitN(string(b), "\n", 2)[0], ":")
+				if len(f) != 5 {
+					viol = fmt.Sprintf("round %d: record of %s is not a schema line: %q", round, u, string(truncate(b, 120)))
+					break
+				}
+				salt, _ := base64.URLEncoding.DecodeString(f[3])
+				dig, _ := base64.URLEncoding.DecodeString(f[4])
+				want := 16
+				if scr {
+					want = 32
+				}
+				nrec++
+				if len(salt) != want {
+					viol = fmt.Sprintf("round %d: salt of %s has %d bytes", round, u, len(salt))
+				} else if prev, dup := seen[string(salt)]; dup {
+					viol = fmt.Sprintf("the salt %s was used for two writes: %s and %s (round %d), written by concurrent goroutines on one Dir", vHex(salt), prev, u, round)
+				} else if !bytes.Equal(dig, p.kdf(salt, []byte(fmt.Sprintf("pw-%d-%d", w, round)))) {
+					viol = fmt.Sprintf("round %d: digest of %s is not the schema's function of its password, salt and parameters", round, u)
+				}
+				seen[string(salt)] = fmt.Sprintf("%s (round %d)", u, round)
+			}
+		}
+		c := vCase{Prop: "C14", Kind: "concurrent-writers", Class: fmt.Sprintf("concurrent-writers/scrypt=%v", scr), Nontrivial: true,
+			Human: map[string]interface{}{"rounds": rounds, "writers": writers, "records_checked": nrec}}
+		if viol != "" {
+			c.Violation = viol
+		}
+		em.emit(c)
+		os.RemoveAll(root)
 	}
 }
